@@ -7,6 +7,8 @@ Line-protocol handlers for property C17.
   props: `(preserve true|false)` for remove_assertions / remove_debug_profiling,
          `(inject <name-hex> <expr>)` for inject_global_value
 * `c17.hyp <rule-name-hex> <props> <block>` → `(flag*)`: the defect regions the program touches (empty = inside H₁₇)
+* `c17.whole <rule-name-hex> <props> <block>` → `(lit noref same)`: the three hypotheses of `inject_refines_whole`
+  (literal value; the program never declares/assigns the name; rule run = identifier-only run); `not-applicable` for the other rules
 * `c17.rules` → the modelled rule names
 -/
 namespace DarkluaModel.C17
@@ -40,6 +42,17 @@ def handle (op : String) (args : List String) : String :=
     | some n, some b =>
       match ruleOf? n props with
       | some (some r) => (Sexp.list ((defects r b).map Sexp.atom)).toString
+      | some none => "unknown-rule"
+      | none => "bad-request"
+    | _, _ => "bad-request"
+  | "whole", some [name, props, block] =>
+    match nameOfSexp? name, Block.ofSexp? block with
+    | some n, some b =>
+      match ruleOf? n props with
+      | some (some (.injectGlobalValue ident value)) =>
+        let (a, c, e) := Whole.inRegion ident value b
+        (Sexp.list [Sexp.ofBool a, Sexp.ofBool c, Sexp.ofBool e]).toString
+      | some (some _) => "not-applicable"
       | some none => "unknown-rule"
       | none => "bad-request"
     | _, _ => "bad-request"
